@@ -227,7 +227,8 @@ class ObsLib(Lib):
                 interp.err(node, "observable arithmetic with %r / %r" % (a, b))
             if op == "/":
                 # Obs / Obs with a zero denominator value gives inf/nan fluctuations, not an exception: total division
-                r = wrap(treal(x) / treal(y))
+                from .sym import ABSTRACT_REAL, rdiv
+                r = wrap(rdiv(treal(x), treal(y))) if ABSTRACT_REAL[0] else wrap(treal(x) / treal(y))
             elif op == "**":
                 r = arith("**", wrap(treal(x)) if not isinstance(y, int) else x, y)
                 r = wrap(treal(r)) if isinstance(r, (int, Fraction, SInt)) else r
